@@ -135,16 +135,23 @@ def top_level(s):
 
 
 def is_const_type(t):
-    """is the *object* of this (printed) type immutable?"""
+    """is the object of this (printed) type immutable, including what it points / refers to?
+    `T* const p` with a non-const T counts as mutable: the process-wide state is the pointee."""
     t = t.strip()
     t = re.sub(r"(\s*\[[^\]]*\])+$", "", t)          # arrays: constness of the elements
     tl = top_level(t)
     if "&" in tl:                                     # a reference names another object: const iff referent is
-        before = tl[:tl.index("&")]
-        return bool(re.search(r"\bconst\b", before)) and "*" not in before
-    if "*" in tl:                                     # pointer: only `* const` makes the pointer itself const
-        after = tl[tl.rindex("*") + 1:]
-        return bool(re.search(r"\bconst\b", after))
+        cut = tl.index("&")
+        return is_const_type(t[:cut])
+    m = re.search(r"\(\s*(?:[\w:]+::)?\*\s*(const)?\s*\)\s*\(", t)
+    if m:                                             # pointer to (member) function: the pointee is code
+        return m.group(1) is not None
+    if "*" in tl:                                     # pointer: `* const` and an immutable pointee
+        cut = tl.rindex("*")
+        after = tl[cut + 1:]
+        if not re.search(r"\bconst\b", after):
+            return False
+        return is_const_type(t[:cut])
     return bool(re.search(r"\bconst\b", tl))
 
 
